@@ -423,7 +423,7 @@ func ExpectedText(b Beh, msg string) string {
 	switch b {
 	case BErrorf, BErrorfSkip, BErrorfReject:
 		return "nonfatal: " + msg
-	case BCleanupErrorfSkip:
+	case BCleanupErrorfSkip, BCleanupErrorfCleanupSkip:
 		return "nonfatal in cleanup: " + msg
 	case BError:
 		return "nonfatal:" + msg // fmt.Sprint puts no space between two string operands
